@@ -64,7 +64,8 @@ class C19(Profile):
               'cross_category_name', 'extension_name_form', 'failed_registration_checked', 'parse_registered_custom',
               'parse_unregistered_strict_refused', 'parse_unregistered_custom_mode_dict', 'version_scoped_negative',
               'custom_roundtrip', 'custom_new_version', 'custom_store_roundtrip', 'custom_marking_used', 'custom_extension_used',
-              'either_name', 'extension_name_taken', 'toplevel_extension_used', 'two_toplevel_extensions_on_one_object']
+              'either_name', 'extension_name_taken', 'toplevel_extension_used', 'two_toplevel_extensions_on_one_object',
+              'registered_toplevel_extension_next_to_unregistered']
     rule = ('plans: 20-60 ops: registrations through the four decorators of both spec versions with names from a pool of fresh, already '
             'taken (built-in, earlier in the run, other category) and rule-breaking names and with legal / rule-breaking property lists, the '
             'extension_name form; interleaved with parse (strict/custom mode, version named or not), class_for_type, construction, '
@@ -451,6 +452,23 @@ class C19(Profile):
             if bad2.ok:
                 raise Violation('custom-instances', 'C19.use/toplevel-validation-skipped', dict(score='object'))
             world.probe('two_toplevel_extensions_on_one_object')
+        if (op['a'] // 24) % 2:
+            # the registered extension next to one that is NOT registered (say, its registration was refused), in either order:
+            # the registered one's properties are validated all the same
+            unreg = 'extension-definition--' + C.mkuuid(op['a'] % 5, 'c19-unreg-toplevel')
+            pair = [(unreg, {'extension_type': 'toplevel-property-extension'}), (ext_id, {'extension_type': 'toplevel-property-extension'})]
+            if (op['a'] // 48) % 2:
+                pair.reverse()
+            kw3 = dict(kw, extensions=dict(pair), other_top='v')
+            ok3 = call(lambda: s.v21.Identity(**kw3))
+            if not ok3.ok:
+                raise Violation('custom-instances', 'C19.use/toplevel-next-to-unregistered-refused/%s' % type(ok3.exc).__name__, dict(exc=repr(ok3.exc)[:300]))
+            if ok3.value['rank'] != op['a'] % 100:
+                raise Violation('custom-instances', 'C19.use/toplevel-validation-skipped', dict(rank=repr(ok3.value['rank']), next_to='unregistered'))
+            bad3 = call(lambda: s.v21.Identity(**dict(kw3, rank='not-a-number')))
+            if bad3.ok:
+                raise Violation('custom-instances', 'C19.use/toplevel-validation-skipped', dict(rank='text', next_to='unregistered', order=[k for k, _ in pair]))
+            world.probe('registered_toplevel_extension_next_to_unregistered')
         o = call(lambda: s.v21.Identity(**kw))
         if not o.ok:
             raise Violation('custom-instances', 'C19.use/toplevel-construct-refused/%s' % type(o.exc).__name__, dict(exc=repr(o.exc)[:300]))
